@@ -147,6 +147,19 @@ func (c *Ctx) implementations(iface *types.Interface, method string) []implCand 
 	return out
 }
 
+// ghostKey resolves a ghost variable name used in a contract of package pkgPath; "name" is
+// local, "pkg.name" refers to the ghost variable of the loaded package with that name.
+func (c *Ctx) ghostKey(pkgPath, name string) string {
+	if pk, n, ok := strings.Cut(name, "."); ok {
+		for key, gv := range c.ghostVars {
+			if gv.Name == n && (strings.HasSuffix(gv.PkgPath, "/"+pk) || gv.PkgPath == pk) {
+				return key
+			}
+		}
+	}
+	return pkgPath + "::" + name
+}
+
 // splitExternKey splits "path/to/pkg.(*T).M" into package path and relative name.
 func splitExternKey(key string) (string, string) {
 	slash := strings.LastIndex(key, "/")
